@@ -704,6 +704,46 @@ pub fn correlate_px(px: &mut [[f32; 3]], seed: u64, feedback: Option<&dyn Fn([f3
     }
 }
 
+/// "The previous call converted a permutation of the same pixels": whether (and how) a check should first convert a
+/// permuted copy of its image, ignoring the result. A pure function of the pixel data, so that a replay from the
+/// pixel list repeats the same history. Content digests that ignore pixel order (sums, xors) and "same picture as last
+/// time" shortcuts keyed on them are exposed by exactly this. None for two thirds of the images.
+pub fn prior_perm_kind(bits: impl Iterator<Item = u32>, len: usize) -> Option<u8> {
+    if len < 2 {
+        return None;
+    }
+    let mut h = 0x9E37_79B9_7F4A_7C15u64;
+    for b in bits.take(64) {
+        h = mix64(h ^ b as u64);
+    }
+    let k = h % 12;
+    if k < 4 {
+        Some(k as u8)
+    } else {
+        None
+    }
+}
+/// kinds: 0 reversed, 1 rows mirrored, 2 first and last pixel swapped, 3 rotated by one
+pub fn permuted<T: Copy>(px: &[T], kind: u8, w: usize) -> Vec<T> {
+    let mut v = px.to_vec();
+    let n = v.len();
+    match kind % 4 {
+        0 => v.reverse(),
+        1 => {
+            if w > 0 && n % w == 0 {
+                for row in v.chunks_mut(w) {
+                    row.reverse();
+                }
+            } else {
+                v.reverse();
+            }
+        }
+        2 => v.swap(0, n - 1),
+        _ => v.rotate_left(1),
+    }
+    v
+}
+
 /// Row-level relations for in-place conversions that look at the row above: some row becomes the library's own
 /// result for the row above it (pixel by pixel), a copy of it, or its mirror image. When the fed-back row would leave
 /// the input domain, the row above is first replaced by a grey row (whose results are in the domain of every
